@@ -259,3 +259,81 @@ func init() {
 			Expect: []string{"C11.R3@(*internal/preflight.APIExistence).Check#passes-only-by-delegation"}},
 	)
 }
+
+// Round seven (X1): the phase preflight extracted into a helper whose result ReconcilePhase tests —
+// merged by the normaliser (if-header form: error Phi behind `goto pkoInl…End`; statement form: tail
+// duplication with one contradictory copy per helper return) or left in place (defer: followed
+// through the helper's returns, pfPassedViaCallee) — and the checker list built by append.
+func init() {
+	const (
+		pr = "internal/controllers/phase_reconciler.go"
+		tc = "internal/controllers/objecttemplate/objecttemplate_controller.go"
+	)
+	inline := "\tviolations, err := preflight.CheckAllInPhase(\n\t\tctx, r.preflightChecker, owner.ClientObject(), phase, desiredObjects)\n\tif err != nil {\n\t\treturn nil, res, err\n\t}\n\tif len(violations) > 0 {\n\t\treturn nil, res, &preflight.Error{\n\t\t\tViolations: violations,\n\t\t}\n\t}\n"
+	anchor := "func (r *PhaseReconciler) TeardownPhase(\n"
+	sig := "func (r *PhaseReconciler) checkPhasePreflight(\n\tctx context.Context, owner PhaseObjectOwner,\n\tphase corev1alpha1.ObjectSetTemplatePhase,\n\tdesiredObjects []unstructured.Unstructured,\n) "
+	check := "\tviolations, err := preflight.CheckAllInPhase(\n\t\tctx, r.preflightChecker, owner.ClientObject(), phase, desiredObjects)\n"
+	errHelper := func(pre, onErr, onViolations string) string {
+		return sig + "error {\n" + pre + check + "\tif err != nil {\n\t\treturn " + onErr + "\n\t}\n" + onViolations + "\treturn nil\n}\n\n" + anchor
+	}
+	stop := "\tif len(violations) > 0 {\n\t\treturn &preflight.Error{\n\t\t\tViolations: violations,\n\t\t}\n\t}\n"
+	deferred := "\tlog := logr.FromContextOrDiscard(ctx)\n\tdefer log.V(1).Info(\"preflight done\")\n"
+	ifCall := "\tif err := r.checkPhasePreflight(ctx, owner, phase, desiredObjects); err != nil {\n\t\treturn nil, res, err\n\t}\n"
+	stmtCall := "\terr = r.checkPhasePreflight(ctx, owner, phase, desiredObjects)\n\tif err != nil {\n\t\treturn nil, res, err\n\t}\n"
+	boolHelper := func(onViolations string) string {
+		return sig + "(bool, error) {\n" + check + "\tif err != nil {\n\t\treturn false, err\n\t}\n" + onViolations + "\treturn true, nil\n}\n\n" + anchor
+	}
+	boolStop := "\tif len(violations) > 0 {\n\t\treturn false, &preflight.Error{\n\t\t\tViolations: violations,\n\t\t}\n\t}\n"
+	boolCall := "\tpassed, perr := r.checkPhasePreflight(ctx, owner, phase, desiredObjects)\n\tif !passed {\n\t\treturn nil, res, perr\n\t}\n"
+	pairHelper := sig + "([]preflight.Violation, error) {\n" + check + "\tif err != nil {\n\t\treturn nil, err\n\t}\n\treturn violations, nil\n}\n\n" + anchor
+	pairCall := func(onViolations string) string {
+		return "\tviolations, err := r.checkPhasePreflight(ctx, owner, phase, desiredObjects)\n\tif err != nil {\n\t\treturn nil, res, err\n\t}\n" + onViolations
+	}
+	pairStop := "\tif len(violations) > 0 {\n\t\treturn nil, res, &preflight.Error{Violations: violations}\n\t}\n"
+	variant := func(name, call, helper string, expect ...string) Mutant {
+		return Mutant{Prop: "C11", Name: name, File: pr, Old: inline, New: call, More: []Edit{{File: pr, Old: anchor, New: helper}},
+			Benign: len(expect) == 0, Expect: expect}
+	}
+	// silent for C11/C18 only: rules of properties not owned here are imprecise on these shapes
+	ownOnly := func(m Mutant, why string) Mutant {
+		m.OwnOnly, m.Why = true, why
+		return m
+	}
+	dupWhy := "known imprecision of C03.R2 (not owned here): tail duplication copies the rest of ReconcilePhase once per helper return, and result-from-recorder / object-probed judge the copies' recorders and loops as one (\"returns use different recorders\")"
+	list := "\t\t\tpreflight.NewAPIExistence(\n\t\t\t\trestMapper,\n\t\t\t\tpreflight.List{\n\t\t\t\t\tpreflight.NewNoOwnerReferences(restMapper),\n\t\t\t\t\tpreflight.NewEmptyNamespaceNoDefault(restMapper),\n\t\t\t\t\tpreflight.NewNamespaceEscalation(restMapper),\n\t\t\t\t},\n\t\t\t),\n"
+	ctl := "\tcontroller := &GenericObjectTemplateController{\n\t\tnewObjectTemplate: newObjectTemplate,\n"
+	appended := func(name, build string, expect ...string) Mutant {
+		return Mutant{Prop: "C11", Name: name, File: tc, Old: list, New: "\t\t\tpreflight.NewAPIExistence(restMapper, checks),\n",
+			More: []Edit{{File: tc, Old: ctl, New: build + ctl}}, Benign: len(expect) == 0, Expect: expect}
+	}
+	wiring := "C11.R7@internal/controllers/objecttemplate.newGenericObjectTemplateController#checker-wiring"
+	all3 := "\tchecks = append(checks,\n\t\tpreflight.NewNoOwnerReferences(restMapper),\n\t\tpreflight.NewEmptyNamespaceNoDefault(restMapper),\n\t\tpreflight.NewNamespaceEscalation(restMapper),\n\t)\n"
+	addMutants(
+		variant("r1-benign-preflight-in-helper", ifCall, errHelper("", "err", stop)),
+		ownOnly(variant("r1-benign-preflight-in-helper-statement-form", stmtCall, errHelper("", "err", stop)), dupWhy),
+		ownOnly(variant("r1-benign-preflight-in-helper-left-in-place", ifCall, errHelper(deferred, "err", stop)),
+			"known imprecision of C14.R3 (not owned here): CheckAllInPhase is recognised as a reviewed reader of phase.Objects only when it is called by the GetPhases() consumer itself, not through a helper the normaliser leaves in place"),
+		ownOnly(variant("r1-benign-preflight-in-boolean-helper", boolCall, boolHelper(boolStop)), dupWhy),
+		ownOnly(variant("r1-benign-preflight-results-forwarded-by-helper", pairCall(pairStop), pairHelper), dupWhy),
+		variant("r1-helper-passes-violations", ifCall, errHelper("", "err", "\t_ = violations\n"), "C11.R1@"),
+		variant("r1-helper-left-in-place-passes-violations", ifCall, errHelper(deferred, "err", "\t_ = violations\n"), "C11.R1@"),
+		variant("r1-helper-swallows-preflight-error", ifCall, errHelper("", "nil", stop), "C11.R1@"),
+		variant("r1-helper-left-in-place-swallows-preflight-error", ifCall, errHelper(deferred, "nil", stop), "C11.R1@"),
+		variant("r1-helper-result-dropped", "\t_ = r.checkPhasePreflight(ctx, owner, phase, desiredObjects)\n", errHelper("", "err", stop), "C11.R1@"),
+		variant("r1-helper-left-in-place-result-dropped", "\t_ = r.checkPhasePreflight(ctx, owner, phase, desiredObjects)\n", errHelper(deferred, "err", stop), "C11.R1@"),
+		variant("r1-helper-left-in-place-recovers-panics", ifCall,
+			errHelper("\tdefer func() {\n\t\tif rec := recover(); rec != nil {\n\t\t\tlogr.FromContextOrDiscard(ctx).Info(\"preflight panicked\")\n\t\t}\n\t}()\n", "err", stop), "C11.R1@"),
+		variant("r1-helper-left-in-place-checks-other-objects",
+			"\tif err := r.checkPhasePreflight(ctx, owner, phase, make([]unstructured.Unstructured, len(desiredObjects))); err != nil {\n\t\treturn nil, res, err\n\t}\n",
+			errHelper(deferred, "err", stop), "C11.R1@(*internal/controllers.PhaseReconciler).checkPhasePreflight#CheckAllInPhase-args"),
+		variant("r1-boolean-helper-passes-single-violation", boolCall, boolHelper("\tif len(violations) > 1 {\n\t\treturn false, &preflight.Error{\n\t\t\tViolations: violations,\n\t\t}\n\t}\n"), "C11.R1@"),
+		variant("r1-boolean-helper-result-needs-error-too", "\tpassed, perr := r.checkPhasePreflight(ctx, owner, phase, desiredObjects)\n\tif !passed && perr != nil {\n\t\treturn nil, res, perr\n\t}\n", boolHelper(boolStop), "C11.R1@"),
+		variant("r1-forwarded-violations-not-tested", pairCall("\t_ = violations\n"), pairHelper, "C11.R1@"),
+
+		appended("r7-benign-template-checks-appended-to-made-list", "\tchecks := make(preflight.List, 0, 3)\n"+all3),
+		appended("r7-benign-template-checks-appended-in-two-steps", "\tvar checks preflight.List\n\tchecks = append(checks, preflight.NewNoOwnerReferences(restMapper))\n\tchecks = append(checks,\n\t\tpreflight.NewEmptyNamespaceNoDefault(restMapper),\n\t\tpreflight.NewNamespaceEscalation(restMapper),\n\t)\n"),
+		appended("r7-appended-template-checks-without-namespace-escalation", "\tchecks := make(preflight.List, 0, 3)\n\tchecks = append(checks,\n\t\tpreflight.NewNoOwnerReferences(restMapper),\n\t\tpreflight.NewEmptyNamespaceNoDefault(restMapper),\n\t)\n", wiring),
+		appended("r7-namespace-escalation-appended-under-a-condition", "\tchecks := make(preflight.List, 0, 3)\n\tchecks = append(checks,\n\t\tpreflight.NewNoOwnerReferences(restMapper),\n\t\tpreflight.NewEmptyNamespaceNoDefault(restMapper),\n\t)\n\tif cfg.ResourceRetryInterval > 0 {\n\t\tchecks = append(checks, preflight.NewNamespaceEscalation(restMapper))\n\t}\n", wiring),
+		appended("r7-appended-template-checks-overwritten-through-shared-array", "\tbase := make(preflight.List, 0, 3)\n\tchecks := append(base,\n\t\tpreflight.NewNoOwnerReferences(restMapper),\n\t\tpreflight.NewEmptyNamespaceNoDefault(restMapper),\n\t\tpreflight.NewNamespaceEscalation(restMapper),\n\t)\n\t_ = append(base, preflight.NewEmptyNamespaceNoDefault(restMapper), preflight.NewEmptyNamespaceNoDefault(restMapper), preflight.NewEmptyNamespaceNoDefault(restMapper))\n", wiring),
+	)
+}
